@@ -59,6 +59,41 @@ def _same_shape(got, want):
     return True
 
 
+def _independent(got, want, deps_by_case, fixed):
+    """a case in which the code's value cannot depend on an attribute the reference value depends on: every operand
+    is either traced to inputs, or an unknown local whose defining expressions were seen and mention other inputs
+    only.  -> (case, missing attribute symbols) or None"""
+    import re as _re
+
+    for c in sorted(got):
+        g = got[c]
+        if g is None or "?" in A.canon(g):
+            continue
+        ref_inputs = set(_re.findall(r"@[A-Za-z_]\w*", json.dumps(want[c])))
+        if not ref_inputs:
+            continue
+        bare = set()
+        try:
+            w = A.ref(want[c])
+        except ValueError:
+            w = None
+        _bare_names(g, bare, w)
+        ref_tokens = set(_re.findall(r"[A-Za-z_$@][A-Za-z0-9_.$@]*", json.dumps(want[c])))
+        bare = {x for x in bare if x not in ref_tokens and not x.startswith(fixed)}
+        if not bare:
+            continue  # a fully traced value is compared as a value, not by what it depends on
+        deps = deps_by_case.get(c) or {}
+        if any(deps.get(x) is None for x in bare):
+            continue
+        have = set(_re.findall(r"@[A-Za-z_]\w*", A.canon(g)))
+        for x in bare:
+            have |= {d for d in deps[x] if d.startswith("@")}
+        miss = ref_inputs - have
+        if miss:
+            return c, miss
+    return None
+
+
 def _components(prefix, got, want):
     """pairwise components of two values for per-component reporting"""
     if want is not None and not A.is_form(want) and want[0] in ("struct", "match") and got is not None and not A.is_form(got) and got[0] == want[0]:
@@ -340,6 +375,7 @@ def _case_value(prog, ent, case_name, case):
         self_value = ("struct", fields)
     summ = ev.summary(ent["function"], self_value=self_value, args=argv)
     _case_value.incomplete = list(ev.incomplete)
+    _case_value.unk_deps = dict(ev.unk_deps)
     if "ret" in ent:
         r = summ["ret"] if summ else None
         if ent["ret"] == "all":
@@ -394,9 +430,12 @@ def check_sites(prog, chk, pid):
         got = {}
         want = {}
         partial = {}
+        deps_by_case = {}
         for cname, case in ent["cases"].items():
             _case_value.incomplete = []
+            _case_value.unk_deps = {}
             got[cname] = _case_value(prog, ent, cname, case)
+            deps_by_case[cname] = _case_value.unk_deps
             if _case_value.incomplete or not _definite(got[cname]):
                 partial[cname] = _case_value.incomplete[:1] or ["part of the value is unknown to the evaluator"]
             want[cname] = case["want"] if isinstance(case, dict) else case
@@ -415,6 +454,9 @@ def check_sites(prog, chk, pid):
             # the cases the evaluator did follow to a definite value disagree with the reference among themselves
             _r2, why2 = match_modulo({c: got[c] for c in got if c not in partial}, {c: want[c] for c in want if c not in partial}, ent.get("roles", []), fixed_prefixes=tuple(ent.get("fixed", ["box.", "$"])))
             chk.bad("A17.site-algebra", f"{name}", b.where(), f"{short}: the values {'passed to ' + ent['watch'] + '()' if ent.get('watch') else 'returned'} disagree with the reference algebra ({ent.get('why', '')}) in the cases the evaluator follows completely ({len(ent['cases']) - len(partial)} of {len(ent['cases'])}): {why2}")
+        elif partial and _independent(got, want, deps_by_case, tuple(ent.get("fixed", ["box.", "$"]))):
+            c1, miss = _independent(got, want, deps_by_case, tuple(ent.get("fixed", ["box.", "$"])))
+            chk.bad("A17.site-algebra", f"{name}", b.where(), f"{short} [{c1}]: the reference value ({ent.get('why', '')}) depends on {sorted(miss)}, but nothing the code's value {A.canon(got[c1])[:160]} is computed from - the unknown parts included: they are defined from {sorted(set().union(*[d for d in deps_by_case[c1].values() if d]) or [])[:8]} - can depend on it")
         elif partial:
             # the evaluator could not follow the code to a definite value in some case (an idiom it does not know): a
             # disagreement that rests on an unknown is not evidence of a wrong value
